@@ -204,6 +204,62 @@ example : (trace (Q.init 1) [.setDeadline .past, .setDeadline .future, .recv]).m
 
 end Queue
 
+/-! ### the concurrent contract used by the linearizability search (`Queue.LQ`) -/
+namespace Queue
+
+/-- **C17 (concurrent contract: end-of-stream only on an empty queue).** In the contract against
+which recorded concurrent histories are decided — where a Recv may report a deadline error although
+data is buffered, and Close has an intermediate phase — a Recv still reports end-of-stream only
+when the buffer is empty, and then the queue is closed for good (or somebody called
+`Cancel(io.EOF)` on the open queue). -/
+theorem C17_concurrent_eof_only_when_empty (s s' : LQ) (h : s.admits .recv (.err .eof) = some s') :
+    s.q.buf = [] ∧ s.closing = false ∧ (s.q.closed = true ∨ s.q.err = some .eof) := by
+  unfold LQ.admits at h
+  cases hc : s.closing with
+  | true => simp [hc] at h
+  | false =>
+    simp only [hc, Bool.false_eq_true, if_false] at h
+    unfold admits at h
+    cases hb : s.q.buf with
+    | cons v t => simp [step, hb] at h
+    | nil =>
+      refine ⟨rfl, rfl, ?_⟩
+      cases hcl : s.q.closed with
+      | true => left; rfl
+      | false =>
+        right
+        cases he : s.q.expired <;> cases hr : s.q.err <;> simp [step, hb, hcl, he, hr, Q.errRes] at h
+        rename_i e; cases e <;> simp_all
+
+/-- **C17 (concurrent contract: values come from the buffer, in order).** Whatever the contract
+admits for a Recv that returns a value, it is the oldest buffered item, which is removed. -/
+theorem C17_concurrent_recv_value (s s' : LQ) (v : Nat) (h : s.admits .recv (.val v) = some s') :
+    ∃ t, s.q.buf = v :: t ∧ s'.q.buf = t := by
+  unfold LQ.admits at h
+  have key : ∀ q', admits s.q .recv (.val v) = some q' → ∃ t, s.q.buf = v :: t ∧ q'.buf = t := by
+    intro q' hq
+    unfold admits at hq
+    cases hb : s.q.buf with
+    | nil =>
+      cases hcl : s.q.closed <;> cases he : s.q.expired <;> cases hr : s.q.err <;>
+        simp [step, hb, hcl, he, hr, Q.errRes] at hq
+    | cons w t =>
+      simp [step, hb] at hq
+      obtain ⟨hw, hq⟩ := hq
+      subst hw
+      exact ⟨t, rfl, by rw [← hq]⟩
+  cases hc : s.closing with
+  | true =>
+    simp [hc] at h
+    obtain ⟨q', hq, rfl⟩ := h
+    exact key q' hq
+  | false =>
+    simp [hc] at h
+    obtain ⟨q', hq, rfl⟩ := h
+    exact key q' hq
+
+end Queue
+
 /-!
 Part 2: the small-step interleaving model of the implementation (`Model/DeadlineSteps.lean`):
 any number of threads, every interleaving of the atomic actions of Recv / Send / Close /
